@@ -750,6 +750,12 @@ func (c *Conn) recv(ctx context.Context) error {
 		if _, ok := err.(net.Error); ok {
 			return err
 		}
+		// an error of the connection while the body was being read leaves the rest of
+		// the body unread: what follows can not be parsed as frame headers, so the
+		// connection has to be closed as well.
+		if _, ok := err.(*frameReadError); ok {
+			return err
+		}
 	}
 
 	if err == nil {
